@@ -1132,6 +1132,24 @@ class Session:
             clone.bind_events_to(rt.bound)
         return None
 
+    def foreign_machine(self):
+        """a machine of an unrelated class (no callbacks) that declares events of the same names: every event is a
+        transition from its first state to its second"""
+        if getattr(self, "_foreign", None) is None:
+            from statemachine import State, StateMachine
+            names = sorted(str(e) for e in type(self.rt.sm)._events)
+            if not names:
+                return None
+            a, b = State(initial=True), State()
+            ns = {"fa": a, "fb": b}
+            for n in names:
+                if n.isidentifier() and n not in ("fa", "fb"):
+                    ns[n] = a.to(b) | b.to(b)
+            with warnings.catch_warnings():
+                warnings.simplefilter("ignore")
+                self._foreign = type(StateMachine)("ForeignTriggers", (StateMachine,), ns)()
+        return self._foreign
+
     def ev_name(self, e):
         if e < len(EVENTS):
             return EVENTS[e]
@@ -1150,6 +1168,16 @@ class Session:
             # the caller hands over the *bound event object of another machine* (e.g. the `event` it received in a
             # callback): `send` takes the name from it and triggers this machine's own event of that name
             return sm.send(getattr(foreign, name), _tid=EqTag(tid))
+        if style == "foreign" and declared:
+            # the caller hands over the trigger object of *another* machine that happens to have an event of that name
+            # (an item of its `events`, its `sm.<event>`): `send` takes the name from it and triggers this machine
+            other = self.foreign_machine()
+            if other is not None and hasattr(other, name):
+                before = other.current_state.id
+                r = sm.send(getattr(other, name), _tid=EqTag(tid))
+                if other.current_state.id != before:
+                    rt.lines.append("X sending another machine's trigger object moved that other machine")
+                return r
         if style == "method" and declared:
             return getattr(sm, name)(_tid=EqTag(tid))
         if style == "events" and declared:
